@@ -306,3 +306,33 @@ def enclosing_full_stmt(f, n):
             return cur
         cur = a
     return cur
+
+
+class SubCtx:
+    """collects the obligations of another property's rule set when a check depends on them"""
+
+    def __init__(self, parent):
+        self.parent = parent
+        self.tier = parent.tier
+        self.results = []
+        self.info = {}
+
+    def prog(self, *a, **k):
+        return self.parent.prog(*a, **k)
+
+    def ob(self, rule, key, ok, what, site='', detail=None, sample=True):
+        self.results.append((rule, key, ok, what, site))
+        return ok
+
+    def floor(self, rule, n, minimum, what='instances'):
+        if n < minimum:
+            raise AnalysisBroken('rule %s matched %d %s, floor is %d' % (rule, n, what, minimum))
+
+    def assume(self, text):
+        pass
+
+    def note(self, text):
+        pass
+
+    def analysed(self, fn):
+        self.parent.analysed(fn)
